@@ -286,6 +286,8 @@ fixed("C17", "no longer ends the wait of its parent", "`{ sleep 0.2; echo $((1/0
 finding("C18-coproc-fd-leak", "C18", "every `coproc` leaves its two descriptors open after the coprocess has finished and been waited for (2 descriptors per iteration)",
         all=["leaf:coproc"], oracle="descriptor-count", why=PINNED + " (coproc cases are known_failure) and needs coproc life-cycle tracking")
 
+finding("C18-coproc-fd-leak-runs-out", "C18", "consequence of C18-coproc-fd-leak: after about 500 coprocesses the process has no descriptors left and the iteration fails",
+        all=["leaf:coproc"], oracle="kth-iteration-equals-first", why=PINNED)
 # ---------------------------------------------------------------------------------------------- C19
 finding("C19-heredoc-spans", "C19", "any line containing a here-document yields overlapping spans (the body is covered twice)",
         all=["newline"], observed_contains="gap/overlap", why="here-document tokens carry the body's location out of order")
